@@ -356,7 +356,7 @@ class CallMixin:
         elif isinstance(m, ast.Call) and isinstance(m.func, ast.Name) and m.func.id == 'callbacks':
             p.heap['$cblog'] = fresh('hv_cblog', z3.SeqSort(CbCall))
         elif isinstance(m, ast.Call) and isinstance(m.func, ast.Name) and m.func.id == 'all_but':
-            keep = set('f:' + x for x in self.all_but_names(m))
+            keep = set((x if x.startswith('$') else 'f:' + x) for x in self.all_but_names(m))
             keep.add('$cls')
             # kept arrays keep their pre-call value: materialise them before the epoch changes
             for nm in keep:
@@ -580,6 +580,7 @@ class CallMixin:
         sfc.unfold_depth = getattr(fc, 'unfold_depth', 0)
         sfc.in_quant = getattr(fc, 'in_quant', False)
         sfc.bound = getattr(fc, 'bound', {})
+        sfc.spec_params = [n for (n, t) in f.params]
         saved = p.env
         p.env = {}
         for v, (n, t) in zip(vs, f.params):
@@ -605,6 +606,9 @@ class CallMixin:
         q = p.fork()
         q.env = dict(env)
         q.env.update(getattr(fc, 'bound', {}))     # quantifier-bound variables are state-independent
+        for n in getattr(fc, 'spec_params', ()):   # so are the (value) parameters of the enclosing spec function
+            if n in p.env:
+                q.env[n] = p.env[n]
         q.heap = dict(heap)
         q.epoch = epoch
         n0 = len(q.pc)
@@ -701,6 +705,11 @@ class CallMixin:
         ks = self.ev(node.args[0], p, fc)[0].v
         k = self.ev(node.args[1], p, fc)[0].v
         return [Res(p, VInt(ks.pos(as_int(self.spec_coerce(k)))))]
+
+    def sp_obj_at(self, node, p, fc):
+        """obj_at(i): the object with reference number i (to quantify over all objects)"""
+        v = self.ev(node.args[0], p, fc)[0].v
+        return [Res(p, VRef(as_int(self.spec_coerce(v))))]
 
     def sp_fn(self, node, p, fc):
         """fn('qualified.name'): the code of a repo function as stored in timers (t_fn)"""
@@ -849,6 +858,7 @@ class CallMixin:
         qfc.result = fc.result
         qfc.in_quant = True
         qfc.bound = dict(getattr(fc, 'bound', {}))
+        qfc.spec_params = getattr(fc, 'spec_params', ())
         for n, b in zip(names, bound):
             qfc.bound[n] = VInt(b)
         n0 = len(p.pc)
@@ -897,6 +907,8 @@ class CallMixin:
             if z3.is_app(t):
                 if t.decl().kind() == z3.Z3_OP_SELECT and t.num_args() == 3 and t.arg(2).eq(b) and not self._mentions(t.arg(1), b) \
                         and not self._mentions(t.arg(0), b):
+                    found[t.sexpr()] = t
+                if t.decl().kind() == z3.Z3_OP_SELECT and t.num_args() == 2 and t.arg(1).eq(b) and not self._mentions(t.arg(0), b):
                     found[t.sexpr()] = t
                 stack.extend(t.children())
             elif z3.is_quantifier(t):
